@@ -324,7 +324,7 @@ fn run_prop(prop: &'static str, thorough: bool) -> Part {
                 let p = write_replay(prop, &f);
                 part.violations.push((v, p));
             }
-            let check = SeqCheck { max_fns: if thorough { 8 } else { 6 }, max_ops: if thorough { 40 } else { 24 } };
+            let check = SeqCheck { max_fns: if thorough { 12 } else { 10 }, max_ops: if thorough { 40 } else { 28 } };
             part.add_search(prop, &check, cases, workers, &known);
             part.assumptions = vec!["only FnIds returned by the same builder are used (foreign ids panic in petgraph by contract)".into()];
             part
